@@ -365,9 +365,10 @@ func resumeDomain(lines []string) []string {
 			return nil
 		}
 		var inner fullStore
-		split := strings.HasSuffix(kind, "+sub") || strings.HasSuffix(kind, "+bus")
+		sqlSub := strings.HasSuffix(kind, "+sqlsub") // positions in the SQLite store, which keeps them as integers
+		split := strings.HasSuffix(kind, "+sub") || strings.HasSuffix(kind, "+bus") || sqlSub
 		rc.subFirst = strings.HasSuffix(kind, "+bus")
-		kind = strings.TrimSuffix(strings.TrimSuffix(kind, "+sub"), "+bus")
+		kind = strings.TrimSuffix(strings.TrimSuffix(strings.TrimSuffix(kind, "+sub"), "+bus"), "+sqlsub")
 		rc.paged = kind == "paged"
 		if kind == "sqlite" {
 			dir, _ := os.MkdirTemp("", "verifresume")
@@ -386,6 +387,16 @@ func resumeDomain(lines []string) []string {
 			// the offsets live in a store of their own: a separate MemoryStore, which keeps offset strings verbatim
 			// (the SQLite store re-formats the offsets it is given, so it can only keep its own)
 			var subInner eb.SubscriptionStore = eb.NewMemoryStore()
+			if sqlSub {
+				dir, _ := os.MkdirTemp("", "verifresumesub")
+				cleanup = append(cleanup, func() { os.RemoveAll(dir) })
+				s, err := ebsql.New(filepath.Join(dir, "sub.sqlite"))
+				if err != nil {
+					return err
+				}
+				cleanup = append(cleanup, func() { s.Close() })
+				subInner = s
+			}
 			rc.sub = &subView{p: rc.ps, inner: subInner}
 		}
 		rc.bus = rc.newBus()
